@@ -119,8 +119,24 @@ def run(ctx, idx):
                 ctx.violate("C10.a", "%s::Parser.%s::symbol(%s)" % (rel, p.func.name, sym), rel, p.func.lineno, "production `%s` uses `%s`, which is neither a token nor a defined nonterminal" % (p, sym))
         if p.prec and p.prec not in prec_names and p.prec not in toks:
             ctx.violate("C10.a", "%s::Parser.%s::prec" % (rel, p.func.name), rel, p.func.lineno, "%%prec %s is not declared" % p.prec)
+    retyped = retyping(idx, L)
     for t in L.tokens:
         r = L.rule(t)
+        if r is None and t in retyped:
+            # produced by another rule that re-types its token for particular lexemes (the reserved-word idiom)
+            src_rule, words = retyped[t]
+            missing = []
+            for p in L.productions:
+                for i, sym in enumerate(p.rhs):
+                    if sym == src_rule.token:
+                        alt = p.rhs[:i] + [t] + p.rhs[i + 1:]
+                        if not any(q.lhs == p.lhs and q.rhs == alt for q in L.productions):
+                            missing.append(p)
+            ctx.ob("C10.a", "%s::token(%s)" % (rel, t), rel, src_rule.node.lineno, not missing,
+                   "token %s is produced by %s for the lexemes %s and is accepted wherever %s is" % (t, src_rule.name, sorted(words), src_rule.token) if not missing else
+                   "%s re-types the lexemes %s as %s, but the grammar does not accept %s where it accepts %s (e.g. in `%s`): text that merely starts with or equals such a word (`%s.tif`, a tuple key `%s`) is now a syntax error although its quoted spelling still parses" % (
+                       src_rule.name, sorted(words), t, t, src_rule.token, missing[0], sorted(words)[0], sorted(words)[0]))
+            continue
         ctx.ob("C10.a", "%s::token(%s)" % (rel, t), rel, r.node.lineno if r else L.lexer_cls.node.lineno, r is not None, "token %s has a rule" % t if r else "token %s is declared but has no t_%s rule: PLY refuses to build the lexer" % (t, t), nontrivial=False)
     for r in L.rules:
         if not r.ignored and r.token not in toks and r.name != "t_newline" and r.returns_token is not False:
@@ -345,6 +361,48 @@ def run(ctx, idx):
         ctx.ob("C10.g", con, rel, fn.lineno, ok, "raises SyntaxError on every path" if ok else "%s can return normally or raise something else: malformed text is skipped or misreported" % nm)
 
 
+def retyping(idx, L):
+    """tokens a function rule emits by re-typing its token for particular lexemes:
+    `t.type = TABLE.get(t.value, "ID")` / `if t.value in TABLE: t.type = TABLE[t.value]` -> {token: (rule, lexemes)}"""
+    out = {}
+    for r in L.rules:
+        if r.kind != "func":
+            continue
+        fn = r.node
+        targ = fn.args.args[-1].arg
+        for n in ast.walk(fn):
+            if not (isinstance(n, ast.Assign) and len(n.targets) == 1 and isinstance(n.targets[0], ast.Attribute) and n.targets[0].attr == "type"
+                    and isinstance(n.targets[0].value, ast.Name) and n.targets[0].value.id == targ):
+                continue
+            v = n.value
+            table = None
+            if isinstance(v, ast.Constant) and isinstance(v.value, str):
+                out.setdefault(v.value, (r, set()))
+                continue
+            if isinstance(v, ast.Call) and isinstance(v.func, ast.Attribute) and v.func.attr == "get" and v.args:
+                table = v.func.value
+            elif isinstance(v, ast.Subscript):
+                table = v.value
+            if table is None:
+                continue
+            tv = None
+            try:
+                tv = idx.const(L.mod, table)
+            except KeyError:
+                if isinstance(table, ast.Attribute) and isinstance(table.value, ast.Name):
+                    c0, expr = idx.find_attr(L.lexer_cls, table.attr)
+                    if expr is not None:
+                        try:
+                            tv = idx.const(L.mod, expr)
+                        except KeyError:
+                            tv = None
+            if isinstance(tv, dict):
+                for word, tok in tv.items():
+                    if isinstance(tok, str) and tok != r.token:
+                        out.setdefault(tok, (r, set()))[1].add(word)
+    return out
+
+
 def error_callbacks_total(ctx, idx, rule, L):
     """p_error receives tokens whose value may be a converted number: only formatting/printing is total on it"""
     fn = L.p_error
@@ -381,3 +439,24 @@ def error_callbacks_total(ctx, idx, rule, L):
         ctx.violate(rule, con, L.mod.rel, probs[0][0], probs[0][1])
     else:
         ctx.hold(rule, con, L.mod.rel, fn.lineno, "the token value is only formatted")
+    # nothing in an error callback may fail before the SyntaxError is raised: no partial operation (index, lookup, conversion)
+    for nm, cb in (("t_error", L.t_error), ("p_error", L.p_error)):
+        if cb is None:
+            continue
+        arg = cb.args.args[-1].arg
+        partial = []
+        for n in ast.walk(cb):
+            if isinstance(n, ast.Subscript) and not isinstance(n.slice, ast.Slice) and isinstance(n.ctx, ast.Load):
+                # t.value[0] in t_error: PLY calls t_error with the non-empty rest of the input as t.value
+                if nm == "t_error" and K.src(n) == "%s.value[0]" % arg:
+                    continue
+                partial.append((n.lineno, "`%s` can raise IndexError/KeyError" % K.src(n)[:80]))
+            if isinstance(n, ast.Call) and isinstance(n.func, ast.Name) and n.func.id in ("int", "float", "next", "ord", "chr", "min", "max"):
+                partial.append((n.lineno, "`%s` can raise" % K.src(n)[:80]))
+            if isinstance(n, ast.Call) and isinstance(n.func, ast.Attribute) and n.func.attr in ("index", "pop", "remove", "encode", "decode"):
+                partial.append((n.lineno, "`%s` can raise" % K.src(n)[:80]))
+        con = "%s::%s::no-partial-operation" % (L.mod.rel, nm)
+        if partial:
+            ctx.violate(rule, con, L.mod.rel, partial[0][0], "%s in %s, before the SyntaxError is raised: some malformed texts (e.g. with CR-only line breaks, where the line count and a split on LF disagree) then escape as another exception type" % (partial[0][1], nm))
+        else:
+            ctx.hold(rule, con, L.mod.rel, cb.lineno, "only total operations (attribute reads, formatting) precede the raise")
